@@ -18,25 +18,79 @@ pub struct AdvCell<F> {
     pub val: Option<F>,
 }
 
+/// Column key: (`a`dvice / `f`ixed / `i`nstance / `s`elector, index).
+pub type ColKey = (char, usize);
+
 #[derive(Clone, Debug, Default)]
 pub struct RegionRec {
     pub name: String,
     pub first_row: Option<usize>,
     pub selectors: Vec<(usize, usize)>,
+    /// program operation (`trace::cur_op`) during which the region was entered
+    pub op: usize,
+    /// first row of the region as placed by the single-pass layouter (re-derived: the earliest
+    /// row at which none of the region's columns is in use)
+    pub start: usize,
+    /// columns touched (advice, fixed, selectors) and the largest absolute row assigned
+    cols: std::collections::BTreeSet<ColKey>,
+    last_row: Option<usize>,
+}
+
+/// One copy constraint with absolute cells.
+#[derive(Clone, Debug)]
+pub struct CopyRec {
+    pub left: (ColKey, usize),
+    pub right: (ColKey, usize),
+    pub op: usize,
+    /// index of the last region entered before the constraint was emitted
+    pub region: usize,
 }
 
 pub struct Rec<F> {
     pub regions: Vec<RegionRec>,
     pub cells: Vec<AdvCell<F>>,
-    pub copies: Vec<((Column<Any>, usize), (Column<Any>, usize))>,
+    pub copies: Vec<CopyRec>,
+    /// values of the fixed cells assigned (absolute cell -> value)
+    pub fixed: std::collections::HashMap<(ColKey, usize), F>,
     pub max_row: usize,
     cur: Option<usize>,
     known: usize,
+    /// next free row per column (the layouter's `columns` map)
+    next_free: std::collections::HashMap<ColKey, usize>,
+    cell_index: std::collections::HashSet<(usize, usize, usize)>,
 }
 
 impl<F> Default for Rec<F> {
     fn default() -> Self {
-        Rec { regions: vec![], cells: vec![], copies: vec![], max_row: 0, cur: None, known: 0 }
+        Rec {
+            regions: vec![],
+            cells: vec![],
+            copies: vec![],
+            fixed: Default::default(),
+            max_row: 0,
+            cur: None,
+            known: 0,
+            next_free: Default::default(),
+            cell_index: Default::default(),
+        }
+    }
+}
+
+impl<F> Rec<F> {
+    /// First row of region `k` (see `RegionRec::start`).
+    pub fn region_start(&self, k: usize) -> usize {
+        self.regions.get(k).map(|r| r.start).unwrap_or(0)
+    }
+    /// Whether region `k` assigned the advice cell (`col`, absolute `row`).
+    pub fn has_cell(&self, k: usize, col: usize, row: usize) -> bool {
+        self.cell_index.contains(&(k, col, row))
+    }
+    fn touch(&mut self, key: ColKey, row: usize) {
+        if let Some(k) = self.cur {
+            let r = &mut self.regions[k];
+            r.cols.insert(key);
+            r.last_row = Some(r.last_row.map_or(row, |x| x.max(row)));
+        }
     }
 }
 
@@ -46,7 +100,7 @@ impl<F: ff::Field> Assignment<F> for Rec<F> {
         NR: Into<String>,
         N: FnOnce() -> NR,
     {
-        self.regions.push(RegionRec { name: name_fn().into(), ..Default::default() });
+        self.regions.push(RegionRec { name: name_fn().into(), op: crate::trace::cur_op(), ..Default::default() });
         self.cur = Some(self.regions.len() - 1);
     }
 
@@ -58,6 +112,18 @@ impl<F: ff::Field> Assignment<F> for Rec<F> {
     }
 
     fn exit_region(&mut self) {
+        // the single-pass layouter placed the region at the earliest row at which none of its
+        // columns is in use; every column it touched is then in use up to its last row
+        if let Some(k) = self.cur {
+            let cols: Vec<ColKey> = self.regions[k].cols.iter().copied().collect();
+            let start = cols.iter().map(|c| self.next_free.get(c).copied().unwrap_or(0)).max().unwrap_or(0);
+            self.regions[k].start = start;
+            if let Some(last) = self.regions[k].last_row {
+                for c in cols {
+                    self.next_free.insert(c, last + 1);
+                }
+            }
+        }
         self.cur = None;
     }
 
@@ -69,6 +135,7 @@ impl<F: ff::Field> Assignment<F> for Rec<F> {
         if let Some(k) = self.cur {
             self.regions[k].selectors.push((selector.index(), row));
         }
+        self.touch(('s', selector.index()), row);
         self.max_row = self.max_row.max(row);
         Ok(())
     }
@@ -103,6 +170,8 @@ impl<F: ff::Field> Assignment<F> for Rec<F> {
         let r = &mut self.regions[k];
         r.first_row = Some(r.first_row.map_or(row, |x| x.min(row)));
         self.cells.push(AdvCell { idx, region: k, col: column.index(), row, val });
+        self.cell_index.insert((k, column.index(), row));
+        self.touch(('a', column.index()), row);
         self.max_row = self.max_row.max(row);
         Ok(())
     }
@@ -110,9 +179,9 @@ impl<F: ff::Field> Assignment<F> for Rec<F> {
     fn assign_fixed<V, VR, A, AR>(
         &mut self,
         _: A,
-        _column: Column<Fixed>,
+        column: Column<Fixed>,
         row: usize,
-        _to: V,
+        to: V,
     ) -> Result<(), Error>
     where
         V: FnOnce() -> Value<VR>,
@@ -120,6 +189,18 @@ impl<F: ff::Field> Assignment<F> for Rec<F> {
         A: FnOnce() -> AR,
         AR: Into<String>,
     {
+        let key: ColKey = ('f', column.index());
+        to().map(|v| {
+            let r: Rational<F> = v.into();
+            self.fixed.insert((key, row), r.evaluate());
+        });
+        if self.cur.is_some() {
+            self.touch(key, row);
+        } else {
+            // a constant assigned by the layouter after the region (constants column)
+            let e = self.next_free.entry(key).or_insert(0);
+            *e = (*e).max(row + 1);
+        }
         self.max_row = self.max_row.max(row);
         Ok(())
     }
@@ -131,7 +212,12 @@ impl<F: ff::Field> Assignment<F> for Rec<F> {
         right_column: Column<Any>,
         right_row: usize,
     ) -> Result<(), Error> {
-        self.copies.push(((left_column, left_row), (right_column, right_row)));
+        self.copies.push(CopyRec {
+            left: (crate::trace::col_key(&left_column), left_row),
+            right: (crate::trace::col_key(&right_column), right_row),
+            op: crate::trace::cur_op(),
+            region: self.regions.len().saturating_sub(1),
+        });
         Ok(())
     }
 
